@@ -94,17 +94,17 @@ func CheckC11(r *Report) {
 	Iterate(I20, d20, v2zero(), 16, func(idx int, a spec.Assignment, o *gocvss20.CVSS20) {
 		states.Add(idx, 1)
 		c11Scores(r, I20, a, o, nil, idx, &vals, &iterCtx{d20, v2zero(), idx})
-	}, iterBad(r, I20, d20, v2zero(), "score-format"), r.TooMany)
+	}, iterBad(r, I20, d20, v2zero(), "score-format"), r.TooMany, true)
 	d30 := v3ClassDims(spec.V30)
 	Iterate(I30, d30, v3bg(spec.V30), 16, func(idx int, a spec.Assignment, o *gocvss30.CVSS30) {
 		states.Add(idx, 1)
 		c11Scores(r, I30, a, o, gocvss30.Rating, idx, &vals, &iterCtx{d30, v3bg(spec.V30), idx})
-	}, iterBad(r, I30, d30, v3bg(spec.V30), "score-format"), r.TooMany)
+	}, iterBad(r, I30, d30, v3bg(spec.V30), "score-format"), r.TooMany, true)
 	d31 := v3ClassDims(spec.V31)
 	Iterate(I31, d31, v3bg(spec.V31), 16, func(idx int, a spec.Assignment, o *gocvss31.CVSS31) {
 		states.Add(idx, 1)
 		c11Scores(r, I31, a, o, gocvss31.Rating, idx, &vals, &iterCtx{d31, v3bg(spec.V31), idx})
-	}, iterBad(r, I31, d31, v3bg(spec.V31), "score-format"), r.TooMany)
+	}, iterBad(r, I31, d31, v3bg(spec.V31), "score-format"), r.TooMany, true)
 	rots := []int{1}
 	if thorough {
 		rots = []int{0, 1, 2}
